@@ -41,6 +41,8 @@ def main(argv=None):
         repo = Repo(os.environ.get('VERIF_REPO', '/repo'))
         chk = report.Check(pid, args.tier, repo, mod.EXPLANATION,
                            mod.NOT_DECIDED, mod.ASSUMPTIONS)
+        from pgsa import sweeps as _sw
+        _sw.static_binding(chk, repo)
         mod.run(chk, repo, args.tier)
         if args.tier == 'thorough':
             from pgsa import sweeps
